@@ -1,4 +1,6 @@
 """C18 — Displayed doctest source is faithful and re-parses to the same doctest."""
+import contextlib
+import io
 import math
 import random
 import re
@@ -127,12 +129,18 @@ def oracle_cfg(prog, line_of, L, ex, opts, real):
     return oracle_plain(ex, real) or oracle_reparse(ex, real)
 
 
+def format_bits(ex, bits):
+    prefix, want, linenos, offset = bool(bits & 1), bool(bits & 2), bool(bits & 4), bool(bits & 8)
+    return ex.format_src(linenos=linenos, colored=False, want=want, offset_linenos=offset, prefix=prefix)
+
+
 def _shard(args):
     seed, shard, count, maxlen = args
     rng = random.Random('c18:%d:%d' % (seed, shard))
     out = {'n': 0, 'nontrivial': set(), 'tags': {}, 'dis': [], 'exp': [], 'samples': []}
     cases = []
     lines = []
+    stateful = []
     for _ in range(count):
         prog = P.gen_program(rng, max_len=maxlen)
         text, line_of, stmt_first = prog.render()
@@ -147,6 +155,26 @@ def _shard(args):
             b = '%d%d%d%d0' % (linenos, want, offset, prefix)
             lines.append('\t'.join(['format_src', b, str(ex.lineno)] + pf))
             cases.append(('src', prog, text, line_of, L, ex, (prefix, want, linenos, offset), real))
+        # STATEFUL: the same DocTest object formatted after it has been RUN 1..3 times (what a failure report and a
+        # re-run do) must display exactly what it displayed before, and that display must still be faithful
+        if rng.random() < 0.35:
+            nruns = rng.randint(1, 3)
+            before = {b: format_bits(ex, b) for b in range(16)}
+            with contextlib.redirect_stdout(io.StringIO()):
+                for r in range(nruns):
+                    E.run_example(ex, verbose=rng.choice([0, 3]))
+            for b in range(16):
+                after = format_bits(ex, b)
+                why = None
+                if after != before[b]:
+                    why = 'after %d run(s) the same DocTest object displays %r, before it displayed %r' % (nruns, after[:300], before[b][:300])
+                else:
+                    prefix, want, linenos, offset = bool(b & 1), bool(b & 2), bool(b & 4), bool(b & 8)
+                    if prefix and want and not linenos:
+                        why = oracle_plain(ex, after) or oracle_reparse(ex, after)
+                    elif prefix and linenos:
+                        why = oracle_numbers(prog, line_of, L, offset, after, want)
+                stateful.append(({'text': text, 'lineno': L, 'options': [b, nruns], 'op': 'after-run', 'program': prog.describe()}, why))
         # CONFIG x ARGUMENT: an explicit argument (True or False) wins over the doctest's configuration, None means
         # "as configured" (DoctestConfig.getvalue); what the command line flags --colored / --offset switch on
         for _ in range(6):
@@ -205,6 +233,12 @@ def _shard(args):
             out['exp'].append((inp, 'faithful display', real[:400], why[:800]))
         if len(out['samples']) < 1 and linenos and offset:
             out['samples'].append({'docstring': text, 'options': opts, 'displayed': real})
+    for inp, why in stateful:
+        out['n'] += 1
+        out['tags']['after-run'] = out['tags'].get('after-run', 0) + 1
+        if why:
+            out['exp'].append((inp, 'the same display before and after running', None, why[:900]))
+    out['exp'].sort(key=lambda e: len(e[0]['text']))
     out['dis'] = out['dis'][:10]
     out['exp'] = out['exp'][:10]
     return out
@@ -292,6 +326,23 @@ def replay(ctx, failing):
     text = inp['text']
     ex = E.parse_example(text, lineno=inp.get('lineno', 1))
     print('docstring (file line %s):\n%s' % (inp.get('lineno'), text))
+    if ex is not None and inp.get('op') == 'after-run':
+        b, nruns = inp['options']
+        before = format_bits(ex, b)
+        import io
+        import contextlib
+        with contextlib.redirect_stdout(io.StringIO()):
+            for _ in range(nruns):
+                E.run_example(ex)
+        after = format_bits(ex, b)
+        print('format_src(prefix=%r, want=%r, linenos=%r, offset_linenos=%r, colored=False)' % (bool(b & 1), bool(b & 2), bool(b & 4), bool(b & 8)))
+        print('before running:\n%s\nafter %d run(s) of the same DocTest object:\n%s' % (before, nruns, after))
+        prog = P.Program.from_desc(inp['program'])
+        _t, line_of, _sf = prog.render()
+        why = None
+        if b & 1 and b & 2 and not b & 4:
+            why = oracle_plain(ex, after) or oracle_reparse(ex, after)
+        return after != before or bool(why)
     if ex is not None and inp.get('op') == 'cfg':
         cfgc, cfgo, argc, argo, linenos = inp['options']
         real = cfg_format(ex, cfgc, cfgo, argc, argo, linenos)
